@@ -133,6 +133,41 @@ class TAbs(Ty):
         return self.name
 
 
+class TOption(Ty):
+    """`Option<T>` (genpm: iterator `next` functions)"""
+
+    def __init__(self, elem):
+        self.elem = elem
+
+    def lean(self):
+        return "Option " + paren_ty(self.elem.lean())
+
+    def __eq__(self, o):
+        return isinstance(o, TOption) and o.elem == self.elem
+
+    def __repr__(self):
+        return "Option<%r>" % (self.elem,)
+
+
+class TIter(Ty):
+    """state of an iterator over a slice: `Iter<T>` = the items not yet consumed (`List T`); `Enumerate<T>` = the items
+    not yet consumed and the counter (`List T × Nat`) — the trusted reading of `IntoIterator<Item = &T>` over a slice:
+    it yields the slice's elements in order (genpm)"""
+
+    def __init__(self, elem, enum):
+        self.elem, self.enum = elem, enum
+
+    def lean(self):
+        l = "List " + paren_ty(self.elem.lean())
+        return "(%s × Nat)" % l if self.enum else l
+
+    def __eq__(self, o):
+        return isinstance(o, TIter) and o.elem == self.elem and o.enum == self.enum
+
+    def __repr__(self):
+        return ("Enumerate<%r>" if self.enum else "Iter<%r>") % (self.elem,)
+
+
 def paren_ty(s):
     return "(%s)" % s if (" " in s) else s
 
@@ -366,6 +401,16 @@ class Parser:
             if self.at(";"):
                 self.next()
             return N("return", x.pos, e=e)
+        if x.kind == "id" and x.text == "loop" and self.at("{", 1):
+            self.next()
+            return N("loop", x.pos, body=self.block())
+        if x.kind == "id" and x.text == "break" and (self.at(";", 1) or self.at("}", 1) or self.at(",", 1)):
+            self.next()
+            if self.at(";"):
+                self.next()
+            return N("break", x.pos)
+        if x.kind == "id" and x.text == "match":
+            return self.match_()
         if x.kind == "id" and x.text in ("loop", "match", "break", "continue", "unsafe", "fn", "use", "const", "static",
                                          "struct", "enum", "impl", "type", "mod", "trait", "async", "move"):
             raise Unsupported("`%s` is outside the translated subset" % x.text, x.pos)
@@ -379,6 +424,60 @@ class Parser:
             self.next()
             return N("exprs", x.pos, e=e)
         return N("tail", x.pos, e=e)
+
+    def match_(self):
+        """`match e { Some(x) => {..} | stmt, None => .., _ => .. }` as a statement (arms are blocks or single statements)"""
+        x = self.expect("match")
+        scrut = self.expr(no_struct=True)
+        self.expect("{")
+        arms = []
+        while not self.at("}"):
+            p0 = self.peek()
+            if p0.kind == "id" and p0.text == "Some" and self.at("(", 1):
+                self.next()
+                self.next()
+                v = self.ident()
+                self.expect(")")
+                pat = ("some", v.text)
+            elif p0.kind == "id" and p0.text == "None":
+                self.next()
+                pat = ("none", None)
+            elif p0.kind == "id" and p0.text == "_":
+                self.next()
+                pat = ("wild", None)
+            else:
+                raise Unsupported("`match` arm pattern `%s …` (only `Some(x)`, `None`, `_` are translated)" % p0.text, p0.pos)
+            self.expect("=>")
+            if self.at("{"):
+                b = self.block()
+                if self.at(","):
+                    self.next()
+            else:
+                st = self.stmt_until_comma()
+                b = N("block", p0.pos, stmts=[st], tail=None)
+            arms.append((pat, b, p0.pos))
+        self.expect("}")
+        if self.at(";"):
+            self.next()
+        return N("match", x.pos, scrut=scrut, arms=arms)
+
+    def stmt_until_comma(self):
+        """a `match` arm without braces: `break`, `return e`, or an assignment, ended by `,` or the closing brace"""
+        x = self.peek()
+        if x.kind == "id" and x.text == "break":
+            self.next()
+            st = N("break", x.pos)
+        elif x.kind == "id" and x.text == "return":
+            self.next()
+            e = None if (self.at(",") or self.at("}")) else self.expr()
+            st = N("return", x.pos, e=e)
+        else:
+            raise Unsupported("`match` arm that is neither a block, `break` nor `return`", x.pos)
+        if self.at(","):
+            self.next()
+        elif not self.at("}"):
+            raise Unsupported("expected `,` after the `match` arm", self.peek().pos)
+        return st
 
     def if_(self):
         x = self.expect("if")
@@ -442,6 +541,10 @@ class Parser:
             self.next()
             if self.at("mut"):
                 self.next()
+                inner = self.unary(no_struct)
+                if inner.kind == "field" and self_path(inner) is not None:
+                    return N("un", x.pos, op="&mut", e=inner)       # `&mut self.text` as a loop source (genpm)
+                return N("un", x.pos, op="&", e=inner)
             return N("un", x.pos, op="&", e=self.unary(no_struct))
         if x.kind == "op" and x.text == "&&":
             raise Unsupported("`&&` as a double reference", x.pos)
@@ -591,6 +694,8 @@ class Parser:
                         raise Unsupported("struct literal", self.peek().pos)
                 self.expect("}")
                 return N("struct", x.pos, name="::".join(path), fields=fields)
+            if len(path) == 2 and path[0] in WIDTH and path[0][0] == "u" and path[1] in ("MAX", "MIN"):
+                return N("lit", x.pos, v=(2 ** WIDTH[path[0]] - 1) if path[1] == "MAX" else 0, suf=path[0])
             if len(path) > 1:
                 raise Unsupported("path `%s` (only calls through `::` are translated)" % "::".join(path), x.pos)
             return N("var", x.pos, name=x.text)
@@ -626,6 +731,16 @@ def emit_code(code, ind, out):
 
 
 def emit_m(prefix, m, ind, out):
+    if m[0] == "match":
+        # ('match', scrutinee, [(lean pattern, Code)])   (genpm: early exits of loops, `match` on `Option`)
+        out.append("%smatch %s with" % (prefix, m[1]))
+        for pat, sub in m[2]:
+            if not sub.items and sub.final[0] in ("call", "pure"):
+                out.append("%s| %s => %s" % (" " * (ind + 2), pat, sub.final[1] if sub.final[0] == "call" else "pure " + atom(sub.final[1])))
+            else:
+                out.append("%s| %s => do" % (" " * (ind + 2), pat))
+                emit_code(sub, ind + 6, out)
+        return
     if m[0] in ("call", "pure"):
         out.append(prefix + (m[1] if m[0] == "call" else "pure " + atom(m[1])))
         return
@@ -740,6 +855,10 @@ class FnTranslator:
             return TBool()
         if nm == "Vec" and len(t.args) == 1:
             return TSeq(self.ty(t.args[0]))
+        if nm == "Option" and len(t.args) == 1:
+            return TOption(self.ty(t.args[0]))
+        if nm in ("Enumerate", "Iter") and len(t.args) == 1:
+            return TIter(self.ty(t.args[0]), nm == "Enumerate")
         if nm in self.generics and not t.args:
             return TAbs(nm, self.generics[nm])
         if nm in self.aliases and not t.args:
@@ -795,6 +914,8 @@ class FnTranslator:
                 e = e.e
             elif e.kind == "field" and e.e.kind == "var" and e.e.name == "self":
                 return "self." + e.name
+            elif e.kind == "field" and self_path(e) is not None:
+                return self_path(e)
             elif e.kind == "var":
                 return e.name
             else:
@@ -834,6 +955,17 @@ class FnTranslator:
                 self._assigned(n.els, decl, out)
         elif k == "while":
             self._assigned(n.body, decl, out)
+        elif k == "loop":
+            self._assigned(n.body, decl, out)
+        elif k == "match":
+            for pat, b, _ in n.arms:
+                self._assigned(b, set(decl) | ({pat[1]} if pat[0] == "some" else set()), out)
+        elif k == "for" and iter_state_target(n.iter) is not None:
+            # `for pat in it.by_ref()` / `in &mut it`: the iterator state itself is consumed (genpm)
+            r = self._lhs_root(iter_state_target(n.iter))
+            if r not in decl and r not in out:
+                out.append(r)
+            self._assigned(n.body, set(decl) | set(pat_names(n.pat)), out)
         elif k == "for":
             d = set(decl) | set(pat_names(n.pat))
             inner = []
@@ -863,6 +995,14 @@ class FnTranslator:
                 nm = "self." + n.name
                 if nm not in out:
                     out.append(nm)
+            elif n.kind == "field" and self_path(n) is not None:
+                nm = self_path(n)
+                if nm not in out:
+                    out.append(nm)
+            elif n.kind == "match":
+                self._reads(n.scrut, out)
+                for _, b, _ in n.arms:
+                    self._reads(b, out)
             else:
                 for k, v in n.__dict__.items():
                     if k in ("kind", "pos"):
@@ -898,12 +1038,19 @@ class FnTranslator:
             return str(e.v), t
         if k == "blit":
             return ("true" if e.v else "false"), TBool()
+        if k == "var" and e.name == "None" and not any("None" in sc for sc in self.scopes):
+            if not isinstance(expected, TOption):
+                self.err("the type of `None` cannot be read off the text (give the variable a type in the spec)", e)
+            return "none", expected
         if k == "var":
             v = self.lookup(e.name, e)
             return v.lean, v.ty
         if k == "field":
             if e.e.kind == "var" and e.e.name == "self":
                 v = self.lookup("self." + e.name, e)
+                return v.lean, v.ty
+            if self_path(e) is not None:
+                v = self.lookup(self_path(e), e)
                 return v.lean, v.ty
             self.err("field access `.%s` on something other than `self`" % e.name, e)
         if k == "index":
@@ -929,7 +1076,7 @@ class FnTranslator:
                 return s, target               # widening of an unsigned value / same-width reinterpretation of the bit pattern
             return "Rs.cast %d %s" % (target.w, atom(s)), target
         if k == "un":
-            if e.op in ("&",):
+            if e.op in ("&", "&mut"):
                 return self.expr(e.e, code, expected)
             if e.op == "*":
                 inner = e.e
@@ -970,6 +1117,21 @@ class FnTranslator:
             return "(" + ", ".join(p[0] for p in parts) + ")", TTuple([p[1] for p in parts])
         if k == "struct":
             want = self.spec.get("struct_fields", {}).get(e.name)
+            if want is not None and any(isinstance(w, tuple) for w in want):
+                # typed field list (genpm): [(name, type)]; a field initialised with `self` (a reference to the receiver,
+                # whose fields are parameters of the translated functions anyway) is dropped
+                fields = [(f, x) for f, x in e.fields if not (x.kind == "var" and x.name == "self")]
+                if [f for f, _ in fields] != [w[0] for w in want]:
+                    self.err("struct literal `%s` has fields %s, the spec (and the theorems) expect %s in this order"
+                             % (e.name, ",".join(f for f, _ in fields), ",".join(w[0] for w in want)), e)
+                parts = []
+                for (f, x), (_, wt) in zip(fields, want):
+                    wty = self.ty_of_text(wt)
+                    s_, t_ = self.expr(x, code, wty)
+                    if t_ != wty:
+                        self.err("field `%s` of `%s` has type %r, the spec says %r" % (f, e.name, t_, wty), x)
+                    parts.append((s_, t_))
+                return "(" + ", ".join(p[0] for p in parts) + ")", TTuple([p[1] for p in parts])
             names = [f for f, _ in e.fields]
             if want is None:
                 self.err("struct literal `%s {…}`: the spec does not list its fields (`struct_fields`)" % e.name, e)
@@ -1012,6 +1174,10 @@ class FnTranslator:
                 r, rt = self.expr(e.r, code)
                 l, lt = self.expr(e.l, code, rt)
                 # keep source order of evaluation irrelevant: a literal has no effects
+            elif op in ("==", "!=") and (self.is_subslice(e.l) or self.is_subslice(e.r)):
+                # `a[i..j] == b[..k]`: comparison of sub-slices (genpm)
+                l, lt = self.subslice(e.l, code) if self.is_subslice(e.l) else self.expr(e.l, code)
+                r, rt = self.subslice(e.r, code) if self.is_subslice(e.r) else self.expr(e.r, code, lt)
             else:
                 l, lt = self.expr(e.l, code)
                 r, rt = self.expr(e.r, code, lt)
@@ -1103,10 +1269,40 @@ class FnTranslator:
             return "Rs.wrappingNeg %d %s" % (lt.w, atom(l)), lt
         if nm in ("borrow", "clone", "to_owned") and not e.args and nm == "borrow":
             return self.expr(e.recv, code, expected)
+        if nm in ("into_iter", "iter") and not e.args:
+            r, t = self.expr(e.recv, code, expected)
+            if not isinstance(t, TSeq):
+                self.err("`.%s()` on %r" % (nm, t), e)
+            return r, t                  # a slice read as the iterator over its elements (len(), enumerate(), a call) (genpm)
+        if nm == "enumerate" and not e.args:
+            r, t = self.expr(e.recv, code)
+            if not isinstance(t, TSeq):
+                self.err("`.enumerate()` on %r" % (t,), e)
+            return "(%s, 0)" % r, TIter(t.elem, True)      # fresh `Enumerate`: all items, counter 0 (genpm)
+        if nm in ("is_some", "is_none") and not e.args:
+            r, t = self.expr(e.recv, code)
+            if not isinstance(t, TOption):
+                self.err("`.%s()` on %r" % (nm, t), e)
+            return "%s.%s" % (atom(r), "isSome" if nm == "is_some" else "isNone"), TBool()
         self.err("method `.%s(…)` is outside the translated subset" % nm, e)
 
     def call(self, e, code, expected):
         path = "::".join(e.path)
+        if e.path == ["Some"] and len(e.args) == 1:
+            s, t = self.expr(e.args[0], code, expected.elem if isinstance(expected, TOption) else None)
+            return "some " + atom(s), TOption(t)
+        if (e.path == ["min"] or e.path == ["max"] or e.path[-2:] in (["cmp", "min"], ["cmp", "max"])) and len(e.args) == 2 \
+                and e.path[-1] not in self.calls and path not in self.absfns:
+            # `std::cmp::min(a, b)` on unsigned integers (genpm)
+            if self.is_lit(e.args[0]) and not self.is_lit(e.args[1]):
+                r, rt = self.expr(e.args[1], code, expected)
+                l, lt = self.expr(e.args[0], code, rt)
+            else:
+                l, lt = self.expr(e.args[0], code, expected)
+                r, rt = self.expr(e.args[1], code, lt)
+            if lt != rt or not isinstance(lt, TInt) or lt.signed:
+                self.err("`%s` on %r and %r" % (e.path[-1], lt, rt), e)
+            return "Nat.%s %s %s" % (e.path[-1], atom(l), atom(r)), lt
         if path in self.absfns:
             f = self.absfns[path]
             if len(f["args"]) != len(e.args):
@@ -1203,6 +1399,8 @@ class FnTranslator:
             return self.expr_stmt(s.e, code)
         if k == "ifs":
             return self.if_stmt(s.e, code)
+        if k in LOOP_KINDS and self.loop_is_x(s):
+            return self.loop_x(s, code, None, None)
         if k == "while":
             return self.while_(s, code)
         if k == "for":
@@ -1219,6 +1417,14 @@ class FnTranslator:
         return None
 
     def let(self, s, code):
+        if s.pat.kind == "ptuple" and s.init.kind == "call" and s.ty is None and all(p.kind == "pid" for p in s.pat.items):
+            # `let (a, b) = f(x);` with a translated function that returns a tuple (genpm)
+            val, t = self.expr(s.init, code, None)
+            if not isinstance(t, TTuple) or len(t.items) != len(s.pat.items):
+                self.err("tuple `let` from a call that does not return a tuple of the same length", s)
+            vs = [self.declare(p.name, ti, s, mutable=p.mut) for p, ti in zip(s.pat.items, t.items)]
+            code.let(tuple_pat([v.lean for v in vs]), val)
+            return
         if s.pat.kind == "ptuple":
             if s.init.kind == "paren":
                 s.init = s.init.e
@@ -1602,6 +1808,275 @@ class FnTranslator:
         out_pat = tuple_pat([v.lean for v in state] + ([seq_var.lean] if it_mut else []))
         code.bind(out_pat, ("call", "%s.foldlM %s %s" % (atom(lst), atom(name + self.abs_args() + "".join(" " + v.lean for v in caps)), init)))
 
+
+    # ================================================================ control flow with exits (genpm)
+    # `loop`, `break`, `return` inside loops, `match` on `Option`, `for pat in it.by_ref()` over an iterator state.
+    # A statement sequence is translated in continuation style: `k(code)` finishes `code` with the translation of
+    # whatever follows.  `ctx` says what `return e` / `break` / falling off the end of a loop body mean here.
+
+    def is_subslice(self, e):
+        while e.kind == "paren" or (e.kind == "un" and e.op == "&"):
+            e = e.e
+        return e.kind == "index" and e.idx.kind == "range"
+
+    def subslice(self, e, code):
+        while e.kind == "paren" or (e.kind == "un" and e.op == "&"):
+            e = e.e
+        base, bt = self.expr(e.base, code)
+        if not isinstance(bt, TSeq):
+            self.err("slice of %r" % (bt,), e)
+        r = e.idx
+        if r.incl:
+            self.err("inclusive slice bounds", e)
+        lo = "0" if r.lo is None else self.expr(r.lo, code, TInt("usize"))[0]
+        hi = ("%s.length" % atom(base)) if r.hi is None else self.expr(r.hi, code, TInt("usize"))[0]
+        t = self.tmp()
+        code.bind(t, ("call", "Rs.slice %s %s %s" % (atom(base), atom(lo), atom(hi))))
+        return t, bt
+
+    def has_exit(self, s):
+        """must `s` be translated in continuation style (it can leave the enclosing sequence)?"""
+        k = s.kind
+        if k in ("return", "break", "match"):
+            return True
+        if k == "ifs":
+            return contains_kind(s.e, ("return",)) or contains_kind(s.e, ("break", "match"), stop=LOOP_KINDS)
+        if k in LOOP_KINDS:
+            return contains_kind(s.body, ("return",))
+        return False
+
+    def loop_is_x(self, s):
+        """loops handled by `loop_x` (recursive helper with exits) rather than by `while_` / `for_`"""
+        if s.kind == "loop":
+            return True
+        if s.kind == "for" and iter_state_target(s.iter) is not None:
+            return True
+        return contains_kind(s.body, ("return",)) or contains_kind(s.body, ("break",), stop=LOOP_KINDS)
+
+    def needs_cps(self, stmts):
+        return any(contains_kind(st, ("loop", "break", "match")) or
+                   (st.kind in LOOP_KINDS and self.loop_is_x(st)) or
+                   contains_kind(st, LOOP_KINDS) and any(self.loop_is_x(x) for x in all_nodes(st) if x.kind in LOOP_KINDS)
+                   for st in stmts)
+
+    def keep_scopes(self, k):
+        """the continuation `k`, run in (a copy of) the scopes of this point of the text"""
+        snap = [dict(sc) for sc in self.scopes]
+
+        def k2(code):
+            saved = self.scopes
+            self.scopes = [dict(sc) for sc in snap]
+            try:
+                k(code)
+            finally:
+                self.scopes = saved
+        return k2
+
+    def stmts_k(self, stmts, code, ctx, k):
+        for idx, st in enumerate(stmts):
+            if self.has_exit(st):
+                rest = stmts[idx + 1:]
+                return self.exit_stmt(st, code, ctx, rest, k)
+            self.stmt(st, code, False)
+        k(code)
+
+    def exit_stmt(self, st, code, ctx, rest, k):
+        kd = st.kind
+        if kd == "return":
+            if rest:
+                self.err("statements after `return`", st)
+            return ctx.ret(st.e, code, st)
+        if kd == "break":
+            if rest:
+                self.err("statements after `break`", st)
+            return ctx.brk(code, st)
+        k_rest = self.keep_scopes(lambda c: self.stmts_k(rest, c, ctx, k))
+        if kd == "ifs":
+            e = st.e
+            c, ct = self.expr(e.cond, code, TBool())
+            if not isinstance(ct, TBool):
+                self.err("condition of type %r" % (ct,), e.cond)
+            subs = []
+            for b in (e.then, e.els):
+                sub = Code()
+                if b is None:
+                    k_rest(sub)
+                else:
+                    b = self.unit_block(b)
+                    self.scopes.append({})
+                    try:
+                        self.stmts_k(b.stmts, sub, ctx, k_rest)
+                    finally:
+                        self.scopes.pop()
+                subs.append(sub)
+            code.final = ("if", c, subs[0], subs[1])
+            return
+        if kd == "match":
+            sc, stt = self.expr(st.scrut, code)
+            if not isinstance(stt, TOption):
+                self.err("`match` on a value of type %r (only `Option<_>` is translated)" % (stt,), st)
+            arms, seen = [], set()
+            for pat, b, ppos in st.arms:
+                sub = Code()
+                b = self.unit_block(b)
+                self.scopes.append({})
+                try:
+                    if pat[0] == "some":
+                        v = self.declare(pat[1], stt.elem, st, mutable=False)
+                        lp = "some " + v.lean
+                    else:
+                        lp = "none" if pat[0] == "none" else "_"
+                    self.stmts_k(b.stmts, sub, ctx, k_rest)
+                finally:
+                    self.scopes.pop()
+                seen.add(pat[0])
+                arms.append((lp, sub))
+            if not ("wild" in seen or {"some", "none"} <= seen):
+                self.err("`match` without a `Some(_)` and a `None` arm", st)
+            code.final = ("match", sc, arms)
+            return
+        if kd in LOOP_KINDS:
+            return self.loop_x(st, code, ctx, k_rest)
+        self.err("statement `%s`" % kd, st)
+
+    def loop_x(self, s, code, ctx, k):
+        """`loop {..}`, `while c {..}` with `break`/`return` inside, `for pat in it.by_ref() {..}`: a recursive helper
+        `<fn>_loop<k>` / `<fn>_while<k>` on fuel, resp. `<fn>_iter<k>` by structural recursion on the items the iterator
+        still holds.  The helper returns the loop state, and — when the body contains `return` — an `Option` that says
+        whether the *function* returned from inside the loop (`some v`) or the loop ended normally (`none`)."""
+        kind = s.kind
+        has_ret = contains_kind(s.body, ("return",))
+        if has_ret and ctx is None:
+            self.err("`return` inside a loop that is nested in a block the translator cannot leave early", s)
+        it_var, enum = None, False
+        if kind == "for":
+            tgt = iter_state_target(s.iter)
+            if tgt is None:
+                self.err("`return` is only translated inside `loop`, `while` and `for … in it.by_ref()` loops (and `break` "
+                         "likewise), not inside a `for` over a range or a slice", s)
+            it_var = self.lookup(self._lhs_root(tgt), s)
+            if not isinstance(it_var.ty, TIter):
+                self.err("`for … in %s.by_ref()`: `%s` is not declared as an iterator state (`Enumerate<T>` / `Iter<T>`) in the spec"
+                         % (it_var.rust, it_var.rust), s)
+            enum = it_var.ty.enum
+            self.n_iter = getattr(self, "n_iter", 0) + 1
+            name = "%s_iter%d" % (self.lean_fn, self.n_iter)
+            if enum:
+                if s.pat.kind != "ptuple" or len(s.pat.items) != 2 or any(p.kind != "pid" for p in s.pat.items):
+                    self.err("pattern of a loop over an `Enumerate` must be `(i, c)`", s.pat)
+                loopvars = [(s.pat.items[0].name, TInt("usize")), (s.pat.items[1].name, it_var.ty.elem)]
+            else:
+                if s.pat.kind != "pid":
+                    self.err("pattern of a loop over an iterator", s.pat)
+                loopvars = [(s.pat.name, it_var.ty.elem)]
+            fuel = None
+        else:
+            self.n_while += 1
+            kidx = self.n_while
+            name = "%s_%s%d" % (self.lean_fn, kind, kidx)
+            if kidx > len(self.fuels):
+                self.err("`%s` loop number %d has no fuel expression in the translation spec" % (kind, kidx), s)
+            fuel = self.fuels[kidx - 1]
+            loopvars = []
+        assigned = [a for a in self.assigned(s.body) if it_var is None or a != it_var.rust]
+        if it_var is not None and it_var.rust in self.reads(s.body):
+            self.err("the body of a loop over `%s` uses the iterator itself" % it_var.rust, s)
+        state = self.outer_vars(assigned, s)
+        state_names = [v.rust for v in state] + ([it_var.rust] if it_var is not None else [])
+        scan = N("x", s.pos, a=s.cond, b=s.body) if kind == "while" else s.body
+        caps = self.captured(scan, state_names, [lv[0] for lv in loopvars])
+        out_state = state + ([it_var] if it_var is not None else [])
+        ret_ty = self.ret
+        saved_scopes, saved_tail = self.scopes, self.tail_expected
+        self.tail_expected = None
+        self.scopes = [dict((v.rust, Var(v.rust, v.lean, v.ty)) for v in caps + out_state)]
+        lvs = []
+        for nm, t in loopvars:
+            for sc in saved_scopes:
+                if nm in sc and nm != "_":
+                    self.err("loop variable `%s` shadows a variable of an enclosing block (not translated)" % nm, s)
+            lvs.append(self.declare(nm, t, s, mutable=False, nested_ok=True))
+        self.loop_depth += 1
+        cap_args = self.abs_args() + "".join(" " + v.lean for v in caps)
+        st_in = tuple_val([v.lean for v in state])
+        if kind == "for":
+            rest_nm, cnt = self.fresh_lean("rest"), (lvs[0].lean if enum else None)
+            recur = "%s%s %s%s %s" % (name, cap_args, rest_nm, (" (%s + 1)" % cnt) if enum else "", st_in)
+        else:
+            recur = "%s%s fuel %s" % (name, cap_args, st_in)
+        lctx = LoopCtx(self, out_state, recur, has_ret, ret_ty)
+        try:
+            body = Code()
+            if kind == "for":
+                # the iterator has handed out one item: its new state
+                body.let(it_var.lean, "(%s, %s + 1)" % (rest_nm, cnt) if enum else rest_nm)
+            if kind == "while":
+                c, ct = self.expr(s.cond, body, TBool())
+                if not isinstance(ct, TBool):
+                    self.err("condition of type %r" % (ct,), s.cond)
+                th = Code()
+                self.scopes.append({})
+                self.stmts_k(self.unit_block(s.body).stmts, th, lctx, lambda cc: lctx.cont(cc))
+                self.scopes.pop()
+                el = Code()
+                lctx.brk(el, s)
+                body.final = ("if", c, th, el)
+            else:
+                self.scopes.append({})
+                self.stmts_k(self.unit_block(s.body).stmts, body, lctx, lambda cc: lctx.cont(cc))
+                self.scopes.pop()
+        finally:
+            self.scopes, self.tail_expected = saved_scopes, saved_tail
+            self.loop_depth -= 1
+        out_tys = [v.ty for v in out_state] + ([TOption(ret_ty)] if has_ret else [])
+        res_ty = paren_ty(tuple_ty(out_tys))
+        st_ty = paren_ty(tuple_ty([v.ty for v in state]))
+        if kind == "for":
+            el = paren_ty(it_var.ty.elem.lean())
+            lines = ["/-- `for %s` (line %d): one item of the iterator per round, until it is exhausted%s -/"
+                     % (self.src_text(s, None)[4:].strip(), self.src.line_of(s.pos), " or the function returns" if has_ret else ""),
+                     "%s : List %s → %s%s → Res %s" % (self.helper_header(name, caps), el, "Nat → " if enum else "", st_ty, res_ty)]
+            done = Code()
+            done.let(it_var.lean, "(([] : List %s), %s)" % (el, cnt) if enum else "([] : List %s)" % el)
+            lctx.brk(done, s)
+            lines.append("  | [], %s%s => do" % ((cnt + ", ") if enum else "", tuple_pat([v.lean for v in state])))
+            emit_code(done, 4, lines)
+            lines.append("  | %s :: %s, %s%s => do" % (lvs[-1].lean, rest_nm, (cnt + ", ") if enum else "",
+                                                      tuple_pat([v.lean for v in state])))
+            emit_code(body, 4, lines)
+        else:
+            what = ("while " + self.src_text(s.cond)) if kind == "while" else "loop"
+            lines = ["/-- `%s` (line %d); fuel: `%s` -/" % (what, self.src.line_of(s.pos), fuel),
+                     "%s : Nat → %s → Res %s" % (self.helper_header(name, caps), st_ty, res_ty),
+                     "  | 0, _ => Res.fuel",
+                     "  | fuel + 1, %s => do" % tuple_pat([v.lean for v in state])]
+            emit_code(body, 4, lines)
+        self.helpers.append("\n".join(lines))
+        # ---- the call
+        if kind == "for":
+            call = "%s%s %s%s %s" % (name, cap_args, ("%s.1" % it_var.lean) if enum else it_var.lean,
+                                     (" %s.2" % it_var.lean) if enum else "", st_in)
+        else:
+            for nm in re.findall(r"[A-Za-z_][\w.']*", fuel):
+                if nm.split(".")[0] not in [v.lean for sc in self.scopes for v in sc.values()] and not nm[0].isupper() \
+                        and nm.split(".")[0] not in ("length",):
+                    self.err("fuel expression `%s` of `%s` loop %d mentions `%s`, which is not a variable in scope"
+                             % (fuel, kind, kidx, nm), s)
+            call = "%s%s %s %s" % (name, cap_args, atom(fuel), st_in)
+        outs = [v.lean for v in out_state]
+        if not has_ret:
+            code.bind(tuple_pat(outs), ("call", call))
+            if k is not None:
+                k(code)
+            return
+        r = self.tmp()
+        code.bind(tuple_pat(outs + [r]), ("call", call))
+        v = self.tmp()
+        some, none = Code(), Code()
+        ctx.ret_val(v, some, s)
+        k(none)
+        code.final = ("match", r, [("some " + v, some), ("none", none)])
+
     # ---------------------------------------------------------------- the function
     def translate(self, toks):
         p = Parser(toks)
@@ -1647,6 +2122,10 @@ class FnTranslator:
         returns the types of the returned tuple.  An early return `if c { …; return e; }` at this level becomes
         `if c then do …; pure e else do <rest of the function>`; a `return` anywhere else (in a loop, in a nested `if`
         with an `else`) is refused by `stmt`."""
+        if self.needs_cps(stmts):
+            fctx = FnCtx(self)
+            self.stmts_k(stmts, code, fctx, lambda c: fctx.ret(tail_node, c, where))
+            return fctx.tys
         for idx, st in enumerate(stmts):
             if st.kind == "return":
                 if idx != len(stmts) - 1 or tail_node is not None:
@@ -1688,6 +2167,71 @@ class FnTranslator:
         return out_tys
 
 
+class LoopCtx:
+    """meaning of `return e`, `break` and "next round" inside the body of a loop helper (genpm)"""
+
+    def __init__(self, tr, out_state, recur, has_ret, ret_ty):
+        self.tr, self.out_state, self.recur, self.has_ret, self.ret_ty = tr, out_state, recur, has_ret, ret_ty
+
+    def cur(self, where):
+        return [self.tr.lookup(v.rust, where).lean for v in self.out_state]
+
+    def cont(self, code):
+        code.final = ("call", self.recur)
+
+    def brk(self, code, where):
+        code.final = ("pure", tuple_val(self.cur(where) + (["none"] if self.has_ret else [])))
+
+    def ret(self, e, code, where):
+        if e is None:
+            self.tr.err("`return;` without a value inside a loop", where)
+        val, t = self.tr.expr(e, code, self.ret_ty)
+        if not ty_compatible(t, self.ret_ty):
+            self.tr.err("the returned expression has type %r, the spec declares %r" % (t, self.ret_ty), e)
+        code.final = ("pure", tuple_val(self.cur(where) + ["some " + atom(val)]))
+
+    def ret_val(self, v, code, where):
+        code.final = ("pure", tuple_val(self.cur(where) + ["some " + atom(v)]))
+
+
+class FnCtx:
+    """meaning of `return e` at the level of the function body (genpm)"""
+
+    def __init__(self, tr):
+        self.tr, self.tys = tr, None
+
+    def note(self, tys, where):
+        if self.tys is not None and tys != self.tys:
+            self.tr.err("`return` of type %r, elsewhere the function returns %r" % (tys, self.tys), where)
+        self.tys = tys
+
+    def ret(self, e, code, where):
+        self.note(self.tr.finish(e, code, where), where)
+
+    def brk(self, code, where):
+        self.tr.err("`break` outside a loop", where)
+
+    def ret_val(self, v, code, where):
+        tr = self.tr
+        outs = [tr.lookup(f.rust, where).lean for f in tr.ret_fields]
+        code.final = ("pure", tuple_val(outs + [v]))
+        self.note([f.ty for f in tr.ret_fields] + [tr.ret], where)
+
+
+def all_nodes(n):
+    if isinstance(n, N):
+        yield n
+        for k, v in n.__dict__.items():
+            if k not in ("kind", "pos"):
+                for x in all_nodes(v):
+                    yield x
+    elif isinstance(n, (list, tuple)):
+        for y in n:
+            for x in all_nodes(y):
+                yield x
+
+
+
 def ty_compatible(a, b):
     return a == b
 
@@ -1725,6 +2269,44 @@ def iter_mut_target(it):
     if it.kind == "mcall" and it.name == "iter_mut" and not it.args:
         return it.recv
     return None
+
+
+def self_path(e):
+    """`self.a.b` (a chain of field accesses starting at `self`) → "self.a.b", else None (genpm)"""
+    parts = []
+    while e.kind == "field":
+        parts.append(e.name)
+        e = e.e
+    if e.kind == "var" and e.name == "self" and parts:
+        return "self." + ".".join(reversed(parts))
+    return None
+
+
+def iter_state_target(it):
+    """the iterator-state expression `x` of `x.by_ref()` / `&mut x` as a loop source, or None (genpm)"""
+    while it.kind == "paren":
+        it = it.e
+    if it.kind == "mcall" and it.name == "by_ref" and not it.args:
+        return it.recv
+    if it.kind == "un" and it.op == "&mut":
+        return it.e
+    return None
+
+
+def contains_kind(n, kinds, stop=()):
+    """does the AST below `n` contain a node of one of `kinds` (not descending into nodes of a kind in `stop`)?"""
+    if isinstance(n, N):
+        if n.kind in kinds:
+            return True
+        if n.kind in stop:
+            return False
+        return any(contains_kind(v, kinds, stop) for k, v in n.__dict__.items() if k not in ("kind", "pos"))
+    if isinstance(n, (list, tuple)):
+        return any(contains_kind(x, kinds, stop) for x in n)
+    return False
+
+
+LOOP_KINDS = ("while", "loop", "for")
 
 
 def lean_name(rust):
@@ -1774,7 +2356,7 @@ def translate_unit(src, unit, fail):
                  "longer be regenerated)" % (where, what, u.msg, f.get("theorem", "")))
         out_fns.append((f, line, body, helpers, main))
     name = unit["name"]
-    txt = ["import RbV.Basic.RsSem",
+    txt = ["import RbV.Basic.RsSem" + "".join("\nimport " + i for i in unit.get("imports", [])),
            "/-! GENERATED by tools/rs2lean.py (tools/gen_tables.py, %s) — do not edit." % unit["props"],
            "Translation of the *text* of the following functions of `%s` (comments blanked) into Lean, regenerated from" % rel,
            "the source tree on every `./check`.  Semantics of the operations: `RbV/Basic/RsSem.lean` (`Res.panic` = the Rust",
@@ -1902,6 +2484,31 @@ unit(name="SrcPrescan", props="property C04", file="src/utils/mod.rs",
                      abstract_fns={"op": dict(lean="op", args=["T", "T"], ret="T")},
                      params=[("a", "&mut [T]"), ("neutral", "T")], ret=None,
                      theorem="RbV.Thm.GenSrcPrescan.prescan_eq_model")])
+
+
+# ---- genpm: the search loops of the exact matchers (C08) ------------------------------------------------------------
+# `Matches::next`: the iterator state `self.text` (an `Enumerate` over the text bytes) is the pair (bytes not yet consumed,
+# counter); the trusted reading of `IntoIterator<Item = &u8>` over a slice is that it yields the slice's bytes in order.
+
+unit(name="SrcShiftAndNext", props="property C08", file="src/pattern_matching/shift_and.rs",
+     imports=["RbV.Gen.SrcShiftAndMasks"],
+     functions=[dict(name="ShiftAnd::new", lean="new",
+                     header="pub fn new<C, P>(pattern: P) -> Self where P::IntoIter: ExactSizeIterator, C: Borrow<u8>, "
+                            "P: IntoIterator<Item = C>,",
+                     params=[("pattern", "&[u8]")], ret="(usize, [u64; 256], u64)",
+                     struct_fields={"ShiftAnd": ["m", "masks", "accept"]},
+                     calls={"masks": dict(lean="RbV.Gen.SrcShiftAndMasks.masks", args=["&[u8]"], ret="([u64; 256], u64)")},
+                     theorem="RbV.Thm.GenSrcShiftAndNext.new_eq_model"),
+                dict(name="ShiftAnd::find_all", lean="findAll",
+                     header="pub fn find_all<C, T>(&self, text: T) -> Matches<'_, C, T::IntoIter> where C: Borrow<u8>, "
+                            "T: IntoIterator<Item = C>,",
+                     params=[("text", "&[u8]")], ret="(u64, Enumerate<u8>)",
+                     struct_fields={"Matches": [("active", "u64"), ("text", "Enumerate<u8>")]},
+                     theorem="RbV.Thm.GenSrcShiftAndNext.findAll_eq_model"),
+                dict(name="Matches::next", lean="next", header="fn next(&mut self) -> Option<usize>",
+                     self_fields=[("shiftand.m", "usize"), ("shiftand.masks", "[u64; 256]"), ("shiftand.accept", "u64"),
+                                  ("active", "u64"), ("text", "Enumerate<u8>")],
+                     params=[], ret="Option<usize>", theorem="RbV.Thm.GenSrcShiftAndNext.next_eq_model")])
 
 
 # ================================================================================================== self-test
